@@ -1,0 +1,17 @@
+//go:build verif
+
+package disk
+
+// Verification hooks (build tag "verif"). With the tag off, verifYield is an
+// empty function (see verif_off.go) and the code behaves exactly as before.
+
+// VerifHook, when non-nil, is called at the named yield points with the
+// lookup key (or file path) the current operation works on. A harness uses
+// it to pause an operation at a lock-release / file-system-step boundary.
+var VerifHook func(point string, key string)
+
+func verifYield(point string, key string) {
+	if h := VerifHook; h != nil {
+		h(point, key)
+	}
+}
